@@ -1,6 +1,7 @@
 package rules
 
 import (
+	stdbytes "bytes"
 	"fmt"
 	"go/types"
 	"strings"
@@ -93,6 +94,7 @@ func runTIntFloat(c *load.Ctx, r *report.RuleResult) {
 			continue
 		}
 		e := newTableEnv(c)
+		concreteBytesIntrinsics(e.cfg)
 		numPtr := newNumber.Signature.Results().At(0).Type()
 		errT := types.Universe.Lookup("error").Type()
 		e.cfg.Intrinsics[newNumber.String()] = func(in *pe.Interp, args []pe.Value) (pe.Value, bool) {
@@ -228,3 +230,76 @@ func runTIntFloat(c *load.Ctx, r *report.RuleResult) {
 
 var _ = ssa.Function{}
 var _ = load.Module
+
+// concreteBytesIntrinsics interprets a few helpers of the standard library's bytes package on
+// concrete arguments (the classifier texts are concrete), so that a hand-written scan and the library
+// call that replaces it are read alike.
+func concreteBytesIntrinsics(cfg *pe.Config) {
+	text := func(v pe.Value) ([]byte, bool) {
+		if s, ok := v.(string); ok {
+			return []byte(s), true
+		}
+		es, ok := pe.SliceElems(v)
+		if !ok {
+			return nil, false
+		}
+		out := make([]byte, len(es))
+		for i, e := range es {
+			k, ok := e.(int64)
+			if !ok {
+				return nil, false
+			}
+			out[i] = byte(k)
+		}
+		return out, true
+	}
+	num := func(v pe.Value) (int64, bool) { k, ok := v.(int64); return k, ok }
+	cfg.Intrinsics["bytes.IndexByte"] = func(in *pe.Interp, args []pe.Value) (pe.Value, bool) {
+		b, ok1 := text(args[0])
+		c, ok2 := num(args[1])
+		if !ok1 || !ok2 {
+			return nil, false
+		}
+		return int64(stdbytes.IndexByte(b, byte(c))), true
+	}
+	cfg.Intrinsics["bytes.ContainsAny"] = func(in *pe.Interp, args []pe.Value) (pe.Value, bool) {
+		b, ok1 := text(args[0])
+		cs, ok2 := text(args[1])
+		if !ok1 || !ok2 {
+			return nil, false
+		}
+		return stdbytes.ContainsAny(b, string(cs)), true
+	}
+	cfg.Intrinsics["bytes.IndexAny"] = func(in *pe.Interp, args []pe.Value) (pe.Value, bool) {
+		b, ok1 := text(args[0])
+		cs, ok2 := text(args[1])
+		if !ok1 || !ok2 {
+			return nil, false
+		}
+		return int64(stdbytes.IndexAny(b, string(cs))), true
+	}
+	cfg.Intrinsics["bytes.Contains"] = func(in *pe.Interp, args []pe.Value) (pe.Value, bool) {
+		b, ok1 := text(args[0])
+		sub, ok2 := text(args[1])
+		if !ok1 || !ok2 {
+			return nil, false
+		}
+		return stdbytes.Contains(b, sub), true
+	}
+	cfg.Intrinsics["bytes.ContainsRune"] = func(in *pe.Interp, args []pe.Value) (pe.Value, bool) {
+		b, ok1 := text(args[0])
+		c, ok2 := num(args[1])
+		if !ok1 || !ok2 {
+			return nil, false
+		}
+		return stdbytes.ContainsRune(b, rune(c)), true
+	}
+	cfg.Intrinsics["bytes.Count"] = func(in *pe.Interp, args []pe.Value) (pe.Value, bool) {
+		b, ok1 := text(args[0])
+		sub, ok2 := text(args[1])
+		if !ok1 || !ok2 {
+			return nil, false
+		}
+		return int64(stdbytes.Count(b, sub)), true
+	}
+}
